@@ -280,6 +280,25 @@ def expression_helper(h):
     return None
 
 
+_MODULE_CONSTANTS = {}
+
+
+def module_constants(repo, module):
+    """names bound exactly once, at module level, by a plain assignment (a default that names
+    one of them means the same object whenever the function is called)"""
+    key = (id(repo), module)
+    if key not in _MODULE_CONSTANTS:
+        tree = repo.modules[module]['tree']
+        stores = {}
+        for n in ast.walk(tree):
+            if isinstance(n, ast.Name) and isinstance(n.ctx, (ast.Store, ast.Del)):
+                stores[n.id] = stores.get(n.id, 0) + 1
+        top = {st.targets[0].id for st in tree.body if isinstance(st, ast.Assign) and len(st.targets) == 1 and isinstance(st.targets[0], ast.Name)}
+        globs = {nm for n in ast.walk(tree) if isinstance(n, ast.Global) for nm in n.names}
+        _MODULE_CONSTANTS[key] = {n for n in top if stores.get(n) == 1 and n not in globs}
+    return _MODULE_CONSTANTS[key]
+
+
 def find_helpers(repo):
     defs = {}          # bare name -> [(module, FunctionDef, ClassInfo|None, nested?)]
     for fi in repo.functions.values():
@@ -318,7 +337,8 @@ def find_helpers(repo):
         a = node.args
         if not ok or a.vararg:
             continue
-        if any(not isinstance(dv, ast.Constant) for dv in list(a.defaults) + [k for k in a.kw_defaults if k is not None]):
+        if any(not (isinstance(dv, ast.Constant) or (isinstance(dv, ast.Name) and dv.id in module_constants(repo, module)))
+               for dv in list(a.defaults) + [k for k in a.kw_defaults if k is not None]):
             continue
         body = node.body
         if body and isinstance(body[0], ast.Expr) and isinstance(body[0].value, ast.Constant) and isinstance(body[0].value.value, str):
@@ -1315,7 +1335,60 @@ def lower_index_loops(repo):
     return n
 
 
+# ---------------------------------------------------------------- with suppress(...)
+class _Suppress(ast.NodeTransformer):
+    """with contextlib.suppress(E1, E2): BODY   is   try: BODY / except (E1, E2): pass"""
+
+    def __init__(self, names):
+        self.names = names
+        self.n = 0
+
+    def visit_With(self, s):
+        self.generic_visit(s)
+        if len(s.items) != 1 or s.items[0].optional_vars is not None:
+            return s
+        c = s.items[0].context_expr
+        if not (isinstance(c, ast.Call) and not c.keywords and c.args and not any(isinstance(a, ast.Starred) for a in c.args)):
+            return s
+        if ast.unparse(c.func) not in self.names:
+            return s
+        typ = c.args[0] if len(c.args) == 1 else ast.Tuple(elts=list(c.args), ctx=ast.Load())
+        h = ast.ExceptHandler(type=typ, name=None, body=[ast.Pass()])
+        new = ast.Try(body=s.body, handlers=[h], orelse=[], finalbody=[])
+        self.n += 1
+        return ast.fix_missing_locations(ast.copy_location(new, s))
+
+    def visit_FunctionDef(self, n):
+        self.generic_visit(n)
+        return n
+
+
+def lower_suppress(repo):
+    count = 0
+    for mod, info in repo.modules.items():
+        tree = info['tree']
+        names = set()
+        for n in tree.body:
+            if isinstance(n, ast.Import):
+                for a in n.names:
+                    if a.name == 'contextlib':
+                        names.add('%s.suppress' % (a.asname or 'contextlib'))
+            elif isinstance(n, ast.ImportFrom) and n.module == 'contextlib':
+                for a in n.names:
+                    if a.name == 'suppress':
+                        names.add(a.asname or 'suppress')
+        if not names:
+            continue
+        for fi in repo.functions.values():
+            if fi.module == mod and isinstance(fi.node, ast.FunctionDef):
+                t = _Suppress(names)
+                fi.node.body = [t.visit(x) for x in fi.node.body]
+                count += t.n
+    return count
+
+
 def inline_helpers(repo):
+    repo.lowered_suppress = lower_suppress(repo)
     repo.lowered_index_loops = lower_index_loops(repo)
     repo.lowered_combinators = lower_combinators(repo)
     repo.desugared_super = desugar_super(repo)
